@@ -209,4 +209,175 @@ theorem updNoSuch_fold (groups valid : List String) (g : String) (hg : g ∈ val
       exact (safe_foldl (updNoSuch groups) (safe_updNoSuch groups) vs _ hc).1
     · exact ih hin _ herr
 
+/-! ### update: what a run that raised nothing has printed (F47 is about the runs that did raise) -/
+/-- `f` cannot clear a pending exception -/
+def Sticky (f : S → S) : Prop := ∀ s, (f s).err = none → s.err = none
+
+theorem sticky_guard (f : S → S) : Sticky (guard f) := by
+  intro s h
+  unfold guard at h
+  split at h
+  · rename_i hs; rw [h] at hs; cases hs
+  · rename_i hs; simpa using hs
+
+theorem sticky_comp {f g : S → S} (hf : Sticky f) (hg : Sticky g) : Sticky (fun s => g (f s)) :=
+  fun s h => hf s (hg _ h)
+
+theorem sticky_foldl {α : Type} (f : α → S → S) (h : ∀ a, Sticky (f a)) (l : List α) :
+    Sticky (fun s => l.foldl (fun s a => f a s) s) := by
+  induction l with
+  | nil => exact fun _ h => h
+  | cons a l ih => intro s hs; simp only [List.foldl_cons] at hs; exact h a s (ih _ hs)
+
+theorem sticky_rpc (m : String) (a : List String) (kOk : Val → S → S) (kFault : Int → String → S → S)
+    (kSock : Int → S → S) : Sticky (rpc m a kOk kFault kSock) := sticky_guard _
+
+theorem sticky_updRemoved (valid : List String) (g : String) : Sticky (updRemoved valid g) := by
+  unfold updRemoved; split
+  · exact fun _ h => h
+  · exact sticky_rpc _ _ _ _ _
+theorem sticky_updChanged (valid : List String) (g : String) : Sticky (updChanged valid g) := by
+  unfold updChanged; split
+  · exact fun _ h => h
+  · exact sticky_rpc _ _ _ _ _
+theorem sticky_updAdded (valid : List String) (g : String) : Sticky (updAdded valid g) := by
+  unfold updAdded; split
+  · exact fun _ h => h
+  · exact sticky_rpc _ _ _ _ _
+
+/-- a loop over groups that raised nothing has, for every group it did not skip, written that group's line(s) -/
+theorem foldl_lines (f : String → S → S) (cond : String → Bool) (good : String → String → Prop)
+    (hs : ∀ g, Sticky (f g)) (hm : ∀ g, Mono (f g))
+    (hp : ∀ g s, (f g s).err = none → cond g = true → ∃ l ∈ (f g s).outs, good g l)
+    (gs : List String) (s : S) (h : (gs.foldl (fun s g => f g s) s).err = none) :
+    ∀ g ∈ gs, cond g = true → ∃ l ∈ (gs.foldl (fun s g => f g s) s).outs, good g l := by
+  induction gs generalizing s with
+  | nil => intro g hg; cases hg
+  | cons x xs ih =>
+    intro g hg hc
+    simp only [List.foldl_cons] at h ⊢
+    rcases List.mem_cons.1 hg with rfl | hin
+    · have h1 := sticky_foldl f hs xs _ h
+      obtain ⟨l, hl, hgood⟩ := hp g s h1 hc
+      exact ⟨l, mono_foldl f hm xs _ l hl, hgood⟩
+    · exact ih _ h g hin hc
+
+theorem updRemoved_line (valid : List String) (g : String) (s : S) (h : (updRemoved valid g s).err = none)
+    (hc : (!skipped valid g) = true) :
+    ∃ l ∈ (updRemoved valid g s).outs, l = g ++ ": removed process group" ∨ l = g ++ ": has problems; not removing" := by
+  have hs := sticky_updRemoved valid g s h
+  have hsk : skipped valid g = false := by simpa using hc
+  revert h
+  unfold updRemoved rpc guard
+  simp only [hsk, Bool.false_eq_true, if_false, hs, Option.isSome_none]
+  cases h1 : s.p.script with
+  | nil => simp [badScript, raise, guard, hs]
+  | cons a rest =>
+    cases a with
+    | ok v =>
+      cases v <;> simp only [expectResults] <;> try (simp [badScript, raise, guard, hs]; done)
+      rename_i rs
+      skip
+      split
+      · intro _; exact ⟨_, by simp [out, emit, setExit, setP, guard, hs], Or.inr rfl⟩
+      · simp only [out, emit, guard, hs, Option.isSome_none, Bool.false_eq_true, if_false]
+        cases rest with
+        | nil => simp [badScript, raise, guard, hs]
+        | cons b rest2 =>
+          cases b with
+          | ok w =>
+            cases w <;> simp [expectUnit, badScript, raise, guard, out, emit]
+            exact ⟨_, Or.inr (Or.inr rfl), Or.inl rfl⟩
+          | fault c t => simp [raiseFault, raise, guard]
+          | proto c => simp [raise, guard]
+          | sock e => simp [raiseSock, raise, guard]
+    | fault c t => simp [raiseFault, raise, guard, hs]
+    | proto c => simp [raise, guard, hs]
+    | sock e => simp [raiseSock, raise, guard, hs]
+
+theorem updChanged_line (valid : List String) (g : String) (s : S) (h : (updChanged valid g s).err = none)
+    (hc : (!skipped valid g) = true) :
+    ∃ l ∈ (updChanged valid g s).outs, l = g ++ ": updated process group" ∨ l = g ++ ": has problems; not updating" := by
+  have hs := sticky_updChanged valid g s h
+  have hsk : skipped valid g = false := by simpa using hc
+  revert h
+  unfold updChanged rpc guard
+  simp only [hsk, Bool.false_eq_true, if_false, hs, Option.isSome_none]
+  cases h1 : s.p.script with
+  | nil => simp [badScript, raise, guard, hs]
+  | cons a rest =>
+    cases a with
+    | ok v =>
+      cases v <;> simp only [expectResults] <;> try (simp [badScript, raise, guard, hs]; done)
+      rename_i rs
+      skip
+      split
+      · intro _; exact ⟨_, by simp [out, emit, setExit, setP, guard, hs], Or.inr rfl⟩
+      · simp only [out, emit, guard, hs, Option.isSome_none, Bool.false_eq_true, if_false]
+        cases rest with
+        | nil => simp [badScript, raise, guard, hs]
+        | cons b rest2 =>
+          cases b with
+          | ok w =>
+            cases w <;> simp only [expectUnit] <;> try (simp [badScript, raise, guard]; done)
+            simp only [Option.isSome_none, Bool.false_eq_true, if_false]
+            cases rest2 with
+            | nil => simp [badScript, raise, guard]
+            | cons d rest3 =>
+              cases d with
+              | ok x =>
+                cases x <;> simp [expectUnit, badScript, raise, guard, out, emit]
+                exact ⟨_, Or.inr (Or.inr rfl), Or.inl rfl⟩
+              | fault c t => simp [raiseFault, raise, guard]
+              | proto c => simp [raise, guard]
+              | sock e => simp [raiseSock, raise, guard]
+          | fault c t => simp [raiseFault, raise, guard]
+          | proto c => simp [raise, guard]
+          | sock e => simp [raiseSock, raise, guard]
+    | fault c t => simp [raiseFault, raise, guard, hs]
+    | proto c => simp [raise, guard, hs]
+    | sock e => simp [raiseSock, raise, guard, hs]
+
+theorem updAdded_line (valid : List String) (g : String) (s : S) (h : (updAdded valid g s).err = none)
+    (hc : (!skipped valid g) = true) :
+    ∃ l ∈ (updAdded valid g s).outs, l = g ++ ": added process group" := by
+  have hs := sticky_updAdded valid g s h
+  have hsk : skipped valid g = false := by simpa using hc
+  revert h
+  unfold updAdded rpc guard
+  simp only [hsk, Bool.false_eq_true, if_false, hs, Option.isSome_none]
+  cases h1 : s.p.script with
+  | nil => simp [badScript, raise, guard, hs]
+  | cons a rest =>
+    cases a with
+    | ok v => cases v <;> simp [expectUnit, badScript, raise, guard, out, emit, hs]
+    | fault c t => simp [raiseFault, raise, guard, hs]
+    | proto c => simp [raise, guard, hs]
+    | sock e => simp [raiseSock, raise, guard, hs]
+
+/-- the three loops of do_update, when none of their requests raised: every group that was not skipped has its
+    result line -/
+theorem updApply_lines (valid added changed removed : List String) (s : S)
+    (h : (updApply valid added changed removed s).err = none) :
+    (∀ g ∈ removed, (!skipped valid g) = true → ∃ l ∈ (updApply valid added changed removed s).outs,
+        l = g ++ ": removed process group" ∨ l = g ++ ": has problems; not removing") ∧
+    (∀ g ∈ changed, (!skipped valid g) = true → ∃ l ∈ (updApply valid added changed removed s).outs,
+        l = g ++ ": updated process group" ∨ l = g ++ ": has problems; not updating") ∧
+    (∀ g ∈ added, (!skipped valid g) = true → ∃ l ∈ (updApply valid added changed removed s).outs,
+        l = g ++ ": added process group") := by
+  unfold updApply at h ⊢
+  dsimp only at h ⊢
+  have h2 := sticky_foldl (updAdded valid) (sticky_updAdded valid) added _ h
+  have h1 := sticky_foldl (updChanged valid) (sticky_updChanged valid) changed _ h2
+  refine ⟨fun g hg hc => ?_, fun g hg hc => ?_, ?_⟩
+  · obtain ⟨l, hl, hgood⟩ := foldl_lines (updRemoved valid) (fun g => !skipped valid g) _ (sticky_updRemoved valid)
+      (mono_updRemoved valid) (updRemoved_line valid) removed s h1 g hg hc
+    exact ⟨l, mono_foldl (updAdded valid) (mono_updAdded valid) added _ l
+      (mono_foldl (updChanged valid) (mono_updChanged valid) changed _ l hl), hgood⟩
+  · obtain ⟨l, hl, hgood⟩ := foldl_lines (updChanged valid) (fun g => !skipped valid g) _ (sticky_updChanged valid)
+      (mono_updChanged valid) (updChanged_line valid) changed _ h2 g hg hc
+    exact ⟨l, mono_foldl (updAdded valid) (mono_updAdded valid) added _ l hl, hgood⟩
+  · exact foldl_lines (updAdded valid) (fun g => !skipped valid g) _ (sticky_updAdded valid)
+      (mono_updAdded valid) (updAdded_line valid) added _ h
+
 end Sv.Ctl
